@@ -363,7 +363,13 @@ def _subst_params(n, nargs):
     if isinstance(n, tuple):
         if len(n) == 2 and n[0] == "p" and isinstance(n[1], int) and 1 <= n[1] <= len(nargs):
             return nargs[n[1] - 1]
-        return tuple(_subst_params(x, nargs) for x in n)
+        r = tuple(_subst_params(x, nargs) for x in n)
+        # commutative forms are kept with sorted operands: restore that after the substitution
+        if len(r) == 3 and r[0] in ("+", "*"):
+            return _comm(r[0], r[1], r[2])
+        if len(r) == 3 and r[0] in ("Eq", "Ne", "BitAnd", "BitOr", "BitXor"):
+            return (r[0],) + tuple(sorted(r[1:], key=repr))
+        return r
     return n
 
 
